@@ -68,6 +68,10 @@ PROD = VItem(LIB, ["const PROD_PARAMS"], exec_const_ensures="PROD_PARAMS.max_ini
              "PROD_PARAMS.max_subsequent_size@ == 64008, params_ok(PROD_PARAMS)")
 PROD.props = ["C01", "C02", "C07", "C09"]
 
+FIND_STUFF = VFn(LIB, ["fn find_stuff_sequence"], "find_stuff_sequence.ovl", ["C01", "C02", "C07"],
+                 "Some(i) <=> i is the first index with bytes[i..i+2] == FE FD; None <=> FE FD occurs nowhere; terminates; no panic "
+                 "(loop invariant: no FE FD starts before idx)", rules={"N5", "N16"}, name="find_stuff_sequence")
+
 HCOBS = VerusUnit(
     name="hcobs",
     uses=["use std::num::NonZeroUsize;", "use std::num::NonZeroU32;", "use std::num::{NonZeroU8, NonZeroU16, NonZeroU64};", "use std::io::Read;"],
@@ -76,6 +80,7 @@ HCOBS = VerusUnit(
         VItem(LIB, ["const STUFF_SEQUENCE"]),
         VGhost("spec_enc.rs"),
         VGhost("assumed_iovec.rs"),
+        FIND_STUFF,
         VGhost("frame_spec.rs"),
         VItem(LIB, ["struct Parameters"]),
         VGhost("params_spec.rs"),
